@@ -309,6 +309,52 @@ def trace_verdict(m, sd, trace_ids, err):
     return res
 
 
+def fresh_check(m, roots, roots_data, leaves, followups):
+    """C03 oracle: a fresh manager holding only the surviving definitions answers
+    every query and reacts to later assignments like the one with the history."""
+    import copy
+    if not all(isinstance(t, ExprTask) for t in m.tasks.values()):
+        return {"skipped": "non-expression tasks"}
+    data2 = copy.deepcopy(roots_data)
+    m2 = xd.Manager()
+    roots2 = {label: m2.ref(d, label) for label, d in data2.items()}
+    m2.load(m.dump())
+    res = {"queries": [], "followup": [], "cycle": False}
+    try:
+        m.verify(); m2.verify()
+    except ValueError as e:
+        res["queries"].append(["verify", str(e)[:80]])
+    for p in leaves:
+        a, b = mkref(roots, p), mkref(roots2, p)
+        qa = (sorted(str(x) for x in a._find_dependant_targets()), sorted(str(x) for x in m.tartasks[a]), str(a._expr),
+              sorted(str(x) for x in m.deptasks[a]))
+        qb = (sorted(str(x) for x in b._find_dependant_targets()), sorted(str(x) for x in m2.tartasks[b]), str(b._expr),
+              sorted(str(x) for x in m2.deptasks[b]))
+        if qa != qb:
+            res["queries"].append([p, qa, qb])
+    for p, val in followups:
+        ra, rb = mkref(roots, p), mkref(roots2, p)
+        ea = eb = None
+        try:
+            sd = ra._get_dependencies()
+            m.set_value(ra, val)
+        except Exception as e:
+            ea = exc_name(e)
+        try:
+            m2.set_value(rb, val)
+        except Exception as e:
+            eb = exc_name(e)
+        if order_cycle(triggered(m, sd)):
+            res["cycle"] = True
+        sa, sb = [], []
+        for label in roots_data:
+            flatten(roots_data[label], [label], sa)
+            flatten(data2[label], [label], sb)
+        if ea != eb or sa != sb:
+            res["followup"].append([p, val, ea, eb, [x for x, y in zip(sa, sb) if x != y][:4], [y for x, y in zip(sa, sb) if x != y][:4]])
+    return res
+
+
 # ---------------------------------------------------------------- running a case
 def run_case(case, opts):
     FAULT["n"] = None
@@ -378,6 +424,8 @@ def run_case(case, opts):
                 m.verify()
             elif kind == "cleanup":
                 m.cleanup()
+            elif kind == "freshcheck":
+                obs["fresh"] = fresh_check(m, roots, roots_data, op[1], op[2])
             elif kind == "arm":
                 FAULT["n"] = op[1]
             elif kind == "disarm":
@@ -414,9 +462,11 @@ def run_case(case, opts):
 
 def main():
     inp = json.load(sys.stdin)
+    real_stdout = sys.stdout
+    sys.stdout = sys.stderr          # the library prints diagnostics; keep the JSON channel clean
     opts = inp.get("opts", {})
     res = [run_case(c, opts) for c in inp["cases"]]
-    json.dump({"cases": res, "cythonized": bool(is_cythonized())}, sys.stdout)
+    json.dump({"cases": res, "cythonized": bool(is_cythonized())}, real_stdout)
 
 
 if __name__ == "__main__":
